@@ -225,6 +225,8 @@ bool OPNMIDIplay::LoadMIDI_post()
         m_sequencerInterface->onloopStart_userData = hooks.onLoopStart_userData;
         m_sequencerInterface->onloopEnd = hooks.onLoopEnd;
         m_sequencerInterface->onloopEnd_userData = hooks.onLoopEnd_userData;
+        // ... and the loop behaviour the user asked for: the dumper's "stop at the loop end" ends with the dumper
+        m_sequencer->setLoopHooksOnly(m_setup.loopHooksOnly);
     }
 #endif
 
